@@ -934,6 +934,15 @@ namespace ip {
 				ack.hops = m_channel->hops[remote];
 				forward_packet(std::move(ack));
 
+				if (p.type == aux::packet::type_t::error)
+				{
+					// the other end is gone. Nothing we send from now on is going
+					// to be acknowledged: writes fail, including the one that may
+					// be waiting for the window to open
+					m_channel->hops[remote] = route();
+					maybe_wakeup_writer();
+				}
+
 				// if the sequence number is out-of-order, put it in the
 				// m_incoming_packets queue
 				if (p.seq_nr != m_next_incoming_seq)
